@@ -514,6 +514,14 @@ def walk_body(fn: FunctionInfo) -> Iterator[ast.AST]:
 
 
 def _walk_stmt(node: ast.AST) -> Iterator[ast.AST]:
+    if isinstance(node, (ast.FunctionDef, ast.AsyncFunctionDef, ast.ClassDef)):
+        # a nested definition is its own scope: only its decorators and defaults belong to the enclosing body
+        for d in list(getattr(node, "decorator_list", [])):
+            yield from _walk_stmt(d)
+        if not isinstance(node, ast.ClassDef):
+            for d in list(node.args.defaults) + [x for x in node.args.kw_defaults if x is not None]:
+                yield from _walk_stmt(d)
+        return
     stack = [node]
     while stack:
         n = stack.pop()
